@@ -1409,6 +1409,9 @@ func c07ReplySubjectNonEmpty(r *core.Run, rule string, root []*ssa.Function) {
 	guarded := func(in ssa.Instruction) bool {
 		for _, ed := range dominatingEdges(in) {
 			for _, ft := range edgeFacts(ed) {
+				if known, nonEmpty := replySubjectFact(ft.V, ft.True); known && nonEmpty {
+					return true
+				}
 				bo, ok := ft.V.(*ssa.BinOp)
 				if !ok || (bo.Op != token.EQL && bo.Op != token.NEQ) {
 					continue
